@@ -7,6 +7,7 @@ import DaskModel.Model.RandomKeys
 import DaskModel.Model.Contraction
 import DaskModel.Model.ArrayExpr
 import DaskModel.Model.Moment
+import DaskModel.Model.ArgNd
 open Dask
 
 namespace ReduceDriver
@@ -276,6 +277,87 @@ def hVarTree : Handler := handler fun args =>
     | none => pure (.list [.sym "raised"])
   | _ => none
 
+/-! ### C22 extension: var over several axes (n-d grid of moment partials), arg-reductions with axis=None on n-d arrays -/
+
+/-- `(vargrid ddof (numblocks…) (split…) keepdims depth ((x…)…))` -/
+def hVarGrid : Handler := handler fun args =>
+  match args with
+  | [ddof, nb, sp, kd, d, blocks] => do
+    let blocks ← (← blocks.toList?).mapM toRats?
+    pure (ofGrid ofOptRat ((Dask.Moment.redVar (← ddof.toNat?)).run (← nb.toNats?) (← toOptNats? sp) (← kd.toBool?)
+      (← d.toNat?) blocks))
+  | _ => none
+
+def ltOf? : String → Option (Int → Int → Bool)
+  | "min" => some (fun a b => decide (a < b))
+  | "max" => some (fun a b => decide (a > b))
+  | _ => none
+
+/-- the array as a function of the global multi-index (values outside the data never occur: the model only asks for
+    indices of the blocks) -/
+def ofData (shape : List Nat) (data : List Int) : List Nat → Int := fun idx => data.getD (ravel shape idx) 0
+
+def ofCands (ps : List (Int × Nat)) : SExp := .list (ps.map fun p => .list [.int p.1, .int p.2])
+
+def toCands? (e : SExp) : Option (List (Int × Nat)) := do
+  (← e.toList?).mapM fun c =>
+    match c with
+    | .list [v, i] => do pure ((← v.toInt?), (← i.toNat?))
+    | _ => none
+
+/-- `(argpartsnd min|max ((chunks of axis 0…)…) (flat data…))` ↦ per block, in the C order of the block grid,
+    `((offset…) (block shape…) (block data…) part)` with `part` = `()` | `((value flatindex))` -/
+def hArgPartsNd : Handler := handler fun args =>
+  match args with
+  | [.sym which, chunks, data] => do
+    let lt ← ltOf? which
+    let chunks ← chunks.toNatss?
+    let data ← data.toInts?
+    let f := ofData (shapeOf chunks) data
+    pure (.list ((gridBlocks chunks).map fun B =>
+      .list [SExp.ofNats (B.map (·.1)), SExp.ofNats (B.map (·.2)), SExp.ofInts ((blockIdx B).map f),
+        ofCands (argPartNd lt (shapeOf chunks) f B)]))
+  | _ => none
+
+/-- `(argcomb min|max (((v i)…)…))` ↦ `arg_combine` of a group of partials: `()` | `((v i))` -/
+def hArgComb : Handler := handler fun args =>
+  match args with
+  | [.sym which, parts] => do
+    let lt ← ltOf? which
+    let parts ← (← parts.toList?).mapM toCands?
+    pure (ofCands (argCombL lt parts))
+  | _ => none
+
+/-- `(argagg min|max (((v i)…)…))` ↦ `arg_agg`: `(ok v i)` | `(raised)` -/
+def hArgAgg : Handler := handler fun args =>
+  match args with
+  | [.sym which, parts] => do
+    let lt ← ltOf? which
+    let parts ← (← parts.toList?).mapM toCands?
+    match argAggL lt parts with
+    | some p => pure (.list [.sym "ok", .int p.1, .int p.2])
+    | none => pure (.list [.sym "raised"])
+  | _ => none
+
+/-- `(argtreend min|max ((chunks…)…) (ks…) keepdims depth (flat data…))` ↦ `(ok (key…) v i)` | `(raised (key…))` | `(shape)`;
+    also the specification `argBest` of the raveled data as a second element -/
+def hArgTreeNd : Handler := handler fun args =>
+  match args with
+  | [.sym which, chunks, ks, kd, d, data] => do
+    let lt ← ltOf? which
+    let chunks ← chunks.toNatss?
+    let data ← data.toInts?
+    let f := ofData (shapeOf chunks) data
+    let spec : SExp := match argBest lt (flatData chunks f) with
+      | some p => .list [.sym "ok", .int p.1, .int p.2]
+      | none => .list [.sym "raised"]
+    let tree : SExp := match argTreeNd lt chunks (← ks.toNats?) (← kd.toBool?) (← d.toNat?) f with
+      | some [(k, some p)] => .list [.sym "ok", ofKey k, .int p.1, .int p.2]
+      | some [(k, none)] => .list [.sym "raised", ofKey k]
+      | _ => .list [.sym "shape"]
+    pure (.list [tree, spec])
+  | _ => none
+
 /-! ### C28 -/
 open Dask.RandomKeys in
 /-- `(rngcalls (spawnKey…) nChildren (nblocks…))` ↦ `((((key…)…)…) nChildren')` -/
@@ -444,7 +526,8 @@ def table : List (String × Handler) := [
   ("blsched", ReduceDriver.hBlSched), ("schedok", ReduceDriver.hSchedOk),
   ("mergepct", ReduceDriver.hMergePct),
   ("momchunk", ReduceDriver.hMomChunk), ("momcombine", ReduceDriver.hMomCombine), ("momagg", ReduceDriver.hMomAgg),
-  ("vartree", ReduceDriver.hVarTree),
+  ("vartree", ReduceDriver.hVarTree), ("vargrid", ReduceDriver.hVarGrid),
+  ("argpartsnd", ReduceDriver.hArgPartsNd), ("argcomb", ReduceDriver.hArgComb), ("argagg", ReduceDriver.hArgAgg), ("argtreend", ReduceDriver.hArgTreeNd),
   ("mareduce", ReduceDriver.hMaReduce), ("mazip", ReduceDriver.hMaZip), ("mascan", ReduceDriver.hMaScan),
   ("mafilled", ReduceDriver.hMaFilled), ("mawhere", ReduceDriver.hMaWhere), ("mainside", ReduceDriver.hMaInside),
   ("rngcalls", ReduceDriver.hRngCalls), ("rscalls", ReduceDriver.hRsCalls), ("choiceguard", ReduceDriver.hChoiceGuard),
